@@ -200,6 +200,8 @@ func edits() []edit {
 	add("remove-input-field", func(s *schema) { t := s.typ("In"); t.InputFields = t.InputFields[:1] })
 	add("add-enum-value", func(s *schema) { t := s.typ("E"); t.EnumValues = enumVals("X", "Y", "Z") })
 	add("remove-enum-value", func(s *schema) { t := s.typ("E"); t.EnumValues = enumVals("X") })
+	add("replace-enum-value", func(s *schema) { t := s.typ("E"); t.EnumValues = enumVals("X", "Z") }) // neither set contains the other
+	add("replace-first-enum-value", func(s *schema) { t := s.typ("E"); t.EnumValues = enumVals("A", "Y") })
 	add("remove-union-member", func(s *schema) { t := s.typ("U"); t.PossibleTypes = t.PossibleTypes[:1] })
 	add("add-type-and-union-member", func(s *schema) {
 		s.Types = append(s.Types, typ{Name: "C", Kind: "OBJECT", Fields: []fld{{Name: "z", Type: named("SCALAR", "Int")}}})
@@ -495,17 +497,32 @@ func checkMerged(inputs []*schema, merged *schema, versions bool) (clause, msg s
 
 type ss = map[string]map[string]*federation.IntrospectionQueryResult
 
+// what the gateway keeps between polls: the same introspection objects are merged again and again, so a merge must
+// neither modify its inputs nor give a different answer the second time
+var mergeNote string
+
 func merge(x ss) (s *schema, err error) {
 	defer func() {
 		if p := recover(); p != nil {
 			err = fmt.Errorf("PANIC: %v", p)
 		}
 	}()
+	before, _ := json.Marshal(x)
 	r, err := federation.MergeIntrospectionSchemas(x)
+	after, _ := json.Marshal(x)
+	if string(before) != string(after) {
+		mergeNote = "inputs-unmodified: MergeIntrospectionSchemas modified the schemas it was given"
+	}
 	if err != nil {
 		return nil, err
 	}
-	return fromResult(r), nil
+	first := fromResult(r)
+	if r2, err2 := federation.MergeIntrospectionSchemas(x); err2 != nil {
+		mergeNote = "repeatable: merging the same schema objects a second time failed: " + err2.Error()
+	} else if canon(fromResult(r2)) != canon(first) {
+		mergeNote = "repeatable: merging the same schema objects a second time gave a different schema"
+	}
+	return first, nil
 }
 
 func run(rp *explore.Report, tier string) {
@@ -536,7 +553,12 @@ func run(rp *explore.Report, tier string) {
 		var firstErr error
 		for pi, perm := range perms {
 			for _, rename := range []bool{false, true} {
+				mergeNote = ""
 				m, err := merge(build(perm, rename))
+				if mergeNote != "" {
+					fail(strings.SplitN(mergeNote, ":", 2)[0], kind, item, mergeNote)
+					return
+				}
 				if err != nil && strings.HasPrefix(err.Error(), "PANIC") {
 					fail("no-panic", kind, item, err.Error())
 					return
@@ -630,5 +652,5 @@ func run(rp *explore.Report, tier string) {
 
 func init() {
 	reg.Register(&reg.Harness{Property: "C09", Name: "c09/merge", Level: "exploration", Run: run,
-		Rule: "a base introspection schema (objects, input object, enum, union, list/non-null nestings, arguments) and every schema reachable by one edit (thorough: two edits) out of 34 (add/remove type, field, nullable or required argument, input field, enum value, union member; toggle NON_NULL at each nesting level of outputs, arguments and input fields; change a named type); all unordered pairs as two versions of one service and as two services, and triples as three versions / three services, each under every permutation of the inputs and two namings. Oracle on MergeIntrospectionSchemas: the merged schema contains only what every version has / everything some service has, argument required iff any side requires it, output non-null iff every side guarantees it (per nesting level), referenced types present, identical result for every order and naming, and either all orders fail or none"})
+		Rule: "a base introspection schema (objects, input object, enum, union, list/non-null nestings, arguments) and every schema reachable by one edit (thorough: two edits) out of 36 (add/remove type, field, nullable or required argument, input field, enum value, union member; toggle NON_NULL at each nesting level of outputs, arguments and input fields; change a named type); all unordered pairs as two versions of one service and as two services, and triples as three versions / three services, each under every permutation of the inputs and two namings. Oracle on MergeIntrospectionSchemas: the merged schema contains only what every version has / everything some service has, argument required iff any side requires it, output non-null iff every side guarantees it (per nesting level), referenced types present, identical result for every order and naming, either all orders fail or none, the inputs are left unmodified and a second merge of the same objects gives the same schema"})
 }
